@@ -376,6 +376,40 @@ theorem sumVar_code_form (m : ℕ) (P : ℕ → ℕ → α) (h1 : ∑ i ∈ rang
   simp only [← sq]
   exact hv.symm
 
+omit [LinearOrder α] [IsStrictOrderedRing α] in
+/-- `Σ_k p_{x−y}(k) g(k) = Σ_{i,j} p(i,j) g(|i−j|)` -/
+theorem pminus_moment (m : ℕ) (P : ℕ → ℕ → α) (g : ℕ → α) :
+    gsum 0 ((List.range m).map fun k => (pminusG (0 : α) m P).getD k 0 * g k) =
+      ∑ i ∈ range m, ∑ j ∈ range m, P i j * g (absDiff i j) := by
+  rw [gsum_eq_sum, sum_map_range]
+  have h1 : ∀ k ∈ range m, (pminusG (0 : α) m P).getD k 0 * g k =
+      ∑ i ∈ range m, ∑ j ∈ range m, (if absDiff i j = k then P i j * g k else 0) := by
+    intro k hk
+    rw [pminus_getD' m P k (Finset.mem_range.1 hk), Finset.sum_mul]
+    refine Finset.sum_congr rfl fun i _ => ?_
+    rw [Finset.sum_mul]
+    refine Finset.sum_congr rfl fun j _ => ?_
+    split <;> simp
+  rw [Finset.sum_congr rfl h1, Finset.sum_comm]
+  refine Finset.sum_congr rfl fun i hi => ?_
+  rw [Finset.sum_comm]
+  refine Finset.sum_congr rfl fun j hj => ?_
+  have hmem : absDiff i j ∈ range m :=
+    Finset.mem_range.2 (absDiff_lt (Finset.mem_range.1 hi) (Finset.mem_range.1 hj))
+  rw [Finset.sum_ite_eq, if_pos hmem]
+
+/-- `use_x_minus_y_variance`: **`VAR[|x−y|] = Σ k² p_{x−y}(k) − (Σ k p_{x−y}(k))² ≥ 0`** -/
+theorem diffVarAlt_nonneg (m : ℕ) (P : ℕ → ℕ → α) (h0 : ∀ i j, 0 ≤ P i j)
+    (h1 : ∑ i ∈ range m, ∑ j ∈ range m, P i j = 1) :
+    0 ≤ varG (0 : α) Nat.cast (pminusG 0 m P) m := by
+  unfold varG meanSqG meanG
+  rw [pminus_moment, pminus_moment, dsum_eq_prod, dsum_eq_prod]
+  rw [dsum_eq_prod] at h1
+  have := weighted_var_nonneg (range m ×ˢ range m) (fun x : ℕ × ℕ => P x.1 x.2)
+    (fun x : ℕ × ℕ => ((absDiff x.1 x.2 : ℕ) : α)) (fun x _ => h0 _ _) h1
+  simp only [← sq, Nat.cast_pow] at this ⊢
+  exact this
+
 /-! ## the normalised matrix satisfies the hypotheses -/
 
 theorem matAt_nonneg (m : ℕ) (c : List ℕ) (i j : ℕ) : (0 : α) ≤ matAt 0 m (normMat (Nat.cast : ℕ → α) c) i j :=
